@@ -1,6 +1,7 @@
 // C19 oc_xv: ObjectCache under the controlled multi-vCPU scheduler.
 // ops per photon thread (k = key digit):  a<k> acquire (ctor succeeds)   s<k> acquire with a slow ctor (yields inside)
 //   f<k> acquire with a failing ctor   F<k> acquire with a slow failing ctor (yields inside, then fails)   r<k> release   R<k> release(recycle=true, destroy=true)   M<k> release(recycle=true, destroy=false)
+//   i<t> thread_interrupt(program thread t, EINTR) if it is still running
 //   e call expire() (what the cache's timer thread does)   t sleep 150us (> lifespan)   y yield
 #define protected public
 #define private public
@@ -53,6 +54,7 @@ static void body(mvprog::PT& p) {
         if (op == 'p') { int npad = pmc_choose(3, PMC_PROG, 0, "pad yields"); for (int kk = 0; kk < npad; kk++) thread_yield(); continue; }   // every arrival order on one vCPU
         if (op == 't') { thread_usleep(150); continue; }
         if (op == 'e') { G->oc->expire(); continue; }
+        if (op == 'i') { int k = p.ops[++i] - '0'; auto& q = G->prog.pts[k]; G->log += 'i'; G->log += q.done ? 'd' : 'r'; if (q.th && !q.done) thread_interrupt(q.th, EINTR); continue; }
         int k = p.ops[++i] - '0';
         if (op == 'a' || op == 's' || op == 'f' || op == 'F') {
             int mode = op == 'a' ? 0 : op == 's' ? 1 : op == 'f' ? 2 : 3;
@@ -123,6 +125,9 @@ static const PmcConfig CFG[] = {
     {"pF0r0,pa0tepr0,pa0r0", 3, {0,0}, {0,0}, {0,0}, {0,0}, "... every arrival order, plus a third acquirer"},
     {"F0r0|a0ter0",        3, {1,2}, {0,0}, {0,0}, {0,0}, "failing constructor on one vCPU, successful waiter holding past the lifespan on another"},
     {"f0r0|a0ter0|a0r0",   2, {1,2}, {0,0}, {0,0}, {0,0}, ""},
+    {"pa0pR0,pa0ppr0,ppi0", 3, {0,0}, {0,0}, {0,0}, {0,0}, "one vCPU: a stray interrupt lands on the recycling releaser while it waits for the other holder"},
+    {"a0R0|a0yr0|yi0",     3, {1,2}, {0,0}, {0,0}, {0,0}, "... across vCPUs"},
+    {"pa0pM0,pa0ppr0,ppi0", 2, {0,0}, {0,0}, {0,0}, {0,0}, ""},
     {"a0r0,a0R0|a0r0te",   2, {1,2}, {0,0}, {0,0}, {0,0}, ""},
     {"a0r0|a0r0|a0R0",     2, {1,2}, {0,0}, {0,0}, {0,0}, "three vCPUs"},
     {"a0r0,s0r0,a0R0",     3, {0,0}, {0,0}, {0,0}, {0,0}, "one vCPU"},
